@@ -258,11 +258,11 @@ def random_map_seq(o, rng, n, length, u, with_iters=True, with_forget=True, unsa
             o.op(f"{reg} iter {kind} {rng.randint(0, 2)} {script}")
         elif r < 0.84:
             other = rng.choice(regs)
-            o.op(f"{reg} {rng.choice(['clone', 'eq'])} {other}")
+            o.op(f"{reg} {rng.choice(['clone', 'clone_from', 'eq'])} {other}")
         elif r < 0.88:
             k = rng.randint(0, n + 2)
             xs = ",".join(f"{o.k(rng.choice(u))}={o.v()}" for _ in range(k))
-            o.op(f"{reg} from_iter {rng.choice([0, 1])} [{xs}]")
+            o.op(f"{reg} from_iter {rng.choice([0, 1, 3])} [{xs}]")
         elif r < 0.95:
             mods = ",".join(str(rng.randint(1, 3)) for _ in range(rng.randint(0, 2)))
             fin = rng.choice(ENTRY_ENDS)
@@ -310,11 +310,11 @@ def random_set_seq(o, rng, n, length, u):
             script = "".join(rng.choice("nnnlhcx") for _ in range(rng.randint(1, 6)))
             o.op(f"{reg} iter {script}")
         elif r < 0.80:
-            o.op(f"{reg} {rng.choice(['clone', 'eq'])} {other}")
+            o.op(f"{reg} {rng.choice(['clone', 'clone_from', 'eq'])} {other}")
         elif r < 0.85:
             k = rng.randint(0, n + 1)
             xs = ",".join(o.k(rng.choice(u)) for _ in range(k))
-            o.op(f"{reg} {rng.choice(['from_iter', 'extend'])} {rng.choice([0, 1])} [{xs}]")
+            o.op(f"{reg} {rng.choice(['from_iter', 'extend'])} {rng.choice([0, 1, 3])} [{xs}]")
         elif r < 0.93:
             kind = rng.choice(["union", "intersection", "difference", "symmetric_difference"])
             script = "".join(rng.choice("nnnhdDcfx") for _ in range(rng.randint(1, 6)))
@@ -402,6 +402,8 @@ def gen_C02(o, rng, tier):
     for nn in range(0, n + 1):
         product_map(o, nn, tmpls, suffix=suffix)
     wide_map_product(o, tmpls, suffix=suffix, sizes=WIDE[:4])
+    for nn in range(0, 3):
+        clone_from_product(o, nn)
     # sets: drains / consuming iterators
     for nn in range(0, n + 1):
         u = list(range(nn + 1))
@@ -446,7 +448,7 @@ def gen_C03(o, rng, tier):
         u = list(range(nn + 2))
         for k in range(0, nn + 3):
             for seq in itertools.islice(itertools.product(u, repeat=k), 0, 400 if tier == "quick" else 4000):
-                for pulls in (0, 1, 2):      # 2: instrumented source that understates its size_hint
+                for pulls in (0, 1, 2, 3, 4):   # 2/3/4: source whose size_hint understates / is exact / overstates
                     o.case(m0=nn, m1=nn, s0=nn, s1=nn)
                     xs = ",".join(f"{o.k(c)}={o.v()}" for c in seq)
                     o.op(f"m0 from_iter {pulls} [{xs}]", test=True)
@@ -690,6 +692,7 @@ def set_ops_basic(reg, u):
             xs = ",".join(f"{{k{c}}}" for c in seq)
             t.append(f"{reg} extend 1 [{xs}]")
             t.append(f"{reg} extend 0 [{xs}]")
+            t.append(f"{reg} extend 3 [{xs}]")
     return t
 
 
@@ -839,7 +842,9 @@ def gen_C12(o, rng, tier):
                   f"{reg} checked_insert {{k{c}}} {{v}}", f"{reg} entry {{k{c}}} [] oi:{{v}}",
                   f"{reg} entry {{k{c}}} [] o.insert:{{v}}", f"{reg} entry {{k{c}}} [] key",
                   f"{reg} get_key_value q:{c}#0", f"{reg} remove_entry q:{c}#0",
-                  f"{reg} from_iter 1 [{{k{c}}}={{v}},{{k{c}}}={{v}}]"]
+                  f"{reg} from_iter 1 [{{k{c}}}={{v}},{{k{c}}}={{v}}]",
+                  f"{reg} from_iter 3 [{{k{c}}}={{v}},{{k{c}}}={{v}}]",
+                  f"{reg} from_iter 0 [{{k{c}}}={{v}},{{k{c}}}={{v}}]"]
         return t
 
     def suffix(o, u, lay):
@@ -941,6 +946,30 @@ def gen_C14(o, rng, tier):
                     o.end()
 
 
+def clone_from_product(o, n):
+    """`dst.clone_from(&src)` for every pair of layouts: the destination may hold more, fewer or
+    the same number of entries as the source."""
+    u = list(range(n + 1))
+    for a in layouts(n, u):
+        for b in layouts(n, u):
+            o.case(m0=n, m1=n, s0=n, s1=n, tag="f")
+            build_map(o, "m0", a)
+            build_map(o, "m1", b)
+            o.op("m0 clone_from m1", test=True)
+            o.op("m0 eq m1")
+            o.op("m1 len")
+            o.op("m1 iter iter 0 " + "n" * (n + 1))
+            o.op("m0 iter iter 0 " + "n" * (n + 1))
+            for c in u[:2]:
+                o.op(f"m1 insert {o.k(c)} {o.v()}")
+            build_set(o, "s0", a)
+            build_set(o, "s1", b)
+            o.op("s0 clone_from s1", test=True)
+            o.op("s0 eq s1")
+            o.op("s1 iter " + "n" * (n + 1))
+            o.end()
+
+
 def gen_C15(o, rng, tier):
     n = tier_n(tier)
     for nn in range(0, n + 1):
@@ -971,6 +1000,8 @@ def gen_C15(o, rng, tier):
                     o.op("s0 iter nnnnn")
                     o.op("s1 iter nnnnn")
                     o.end()
+    for nn in range(0, 3 if tier == "quick" else 4):
+        clone_from_product(o, nn)
     for _ in range(40 if tier == "quick" else 400):
         nn = rng.choice([1, 2, 3, 4, 6])
         o.case(m0=nn, m1=nn, tag="r")
@@ -991,7 +1022,7 @@ def gen_C16(o, rng, tier):
             if len(seqs) > cap:
                 seqs = rng.sample(seqs, cap)
             for seq in seqs:
-                for pulls in (1, 0, 2):
+                for pulls in (1, 0, 2, 3, 4):
                     o.case(m0=nn, m1=nn, s0=nn, s1=nn)
                     xs = ",".join(f"{o.k(c)}={o.v()}" for c in seq)
                     o.op(f"m0 from_iter {pulls} [{xs}]", test=True)
